@@ -175,8 +175,11 @@ func RunSpin(c PCase) pbt.Outcome {
 				case "newkeys":
 					// a key never used before, every iteration (with many stable keys around it stays in the dirty map only)
 					k := 2_000_000 + w*100_000_000 + i
+					curKey[w].Store(int64(k)) // published BEFORE the store: others may look the key up while it is still absent
 					m.Store(k, k+3)
-					curKey[w].Store(int64(k))
+					if v, ok := m.Load(k); !ok || v != k+3 {
+						fail("never-used private key %d: Load right after this goroutine's Store returned = (%d,%v), want (%d,true) (other goroutines were looking the key up while it was absent)", k, v, ok, k+3)
+					}
 					if v, ok := m.LoadAndDelete(k); !ok || v != k+3 {
 						fail("never-used private key %d: LoadAndDelete right after this goroutine's Store = (%d,%v), want (%d,true)", k, v, ok, k+3)
 					}
